@@ -8,6 +8,8 @@ extra=""
 if [ -n "$BASELINE_JOBS" ]; then extra="-n $BASELINE_JOBS"; fi
 cd /repo && /venv/bin/python -m pytest -ra -q -p no:cacheprovider --timeout=900 \
     --continue-on-collection-errors --junitxml="$out" $extra >/dev/null 2>&1
+# the visualization tests write PDF files next to their reference images: remove them, /repo stays as committed
+git -C /repo clean -fdq skactiveml/visualization/tests/images
 /venv/bin/python - "$out" <<'PY'
 import sys, json, xml.etree.ElementTree as ET
 base = json.load(open('/root/.vp/BASELINE.json'))
